@@ -566,5 +566,6 @@ pub fn generate(profile_name: &str, seed: u64, policy: &str) -> Script {
         queues,
         anchors,
         steps,
+        expect: None,
     }
 }
